@@ -35,6 +35,9 @@ def build_cases(ck):
     cases += jgen.random_cases(ck.seed * 7919 + 1, 300 if quick else 6000, start_id=n0 + 1, size=9)
     cases += jgen.random_cases(ck.seed * 7919 + 2, 40 if quick else 800, start_id=len(cases) + 1, size=6, undefined="strict")
     cases += jgen.random_cases(ck.seed * 7919 + 3, 40 if quick else 800, start_id=len(cases) + 1, size=6, undefined="chainable")
+    cases += jgen.scope_cases(ck.seed * 7919 + 4, 250 if quick else 5000, start_id=len(cases) + 1)
+    cases += jgen.random_cases(ck.seed * 7919 + 5, 60 if quick else 1500, start_id=len(cases) + 1, size=10,
+                               features=("loopcontrols", "recursive"))
     return cases, n0
 
 
